@@ -318,6 +318,22 @@ func c14Panics(c *Check) {
 		}
 		c.Result(okCaller && okPair && nPair >= 2, "C14.D6", "becomeLeader is reached only from a candidate state", fnName(becomeLeader), p.Pos(becomeLeader.Pos()), "its only caller is stepCandidate, and r.step = stepCandidate is always stored together with a (pre-)candidate r.state; state and step are only changed together", fmt.Sprintf("caller=%v pair=%v sites=%d", okCaller, okPair, nPair))
 	}
+	// --- D7: a node whose log base is still an unpersisted snapshot never scans for unapplied conf changes
+	c09Promotable(c)
+	// --- D8: apply acknowledgements never move `applied` backwards (late acks after a snapshot are clamped)
+	if rApplied := p.Method("raft", "raft", "appliedTo"); rApplied != nil {
+		lApplied := p.Method("raft", "raftLog", "appliedTo")
+		afi := p.Info(rApplied)
+		appliedF := p.Field("raft", "raftLog", "applied")
+		for _, ci := range p.CallsIn(rApplied, lApplied) {
+			a := callArgs(ci)
+			l := afi.Sym(a[0])
+			x := afi.Sym(a[1])
+			// the clamp reads `applied` before the call; nothing in between may change it
+			pr := p.Prove(afi, ci, []Req{ReqCmp(x, ">=", FieldOf(l, appliedF))})
+			c.Result(pr.OK, "C14.D8", "index passed to raftLog.appliedTo", fnName(rApplied), p.site(ci), "max(index, applied) >= applied (raftLog.appliedTo panics below the applied index)", describeProof(pr), pr.Chain...)
+		}
+	}
 	// --- no API-reachable function panics unconditionally
 	noret := p.noReturnSet()
 	var uncond []string
@@ -560,6 +576,48 @@ func c15Recovery(c *Check) {
 			}
 		}
 		c.Result(okF, "C15.F", "stale leader traffic is answered", fnName(step), p.Pos(step.Pos()), "lower-term MsgApp/MsgHeartbeat get a MsgAppResp carrying the current term (frees a partitioned node with an inflated term)", "")
+	}
+	// --- C15.N: a snapshot acknowledgement is honoured whatever term it was issued in
+	if step != nil {
+		sfi := p.Info(step)
+		appliedSnap := p.Method("raft", "raft", "appliedSnap")
+		sm := sfi.Sym(step.Params[1])
+		sr := sfi.Sym(step.Params[0])
+		lowArm := findArm(sfi, func(a *Atom) bool {
+			if a.K != ALe {
+				return false
+			}
+			want := newLin()
+			linAdd(want, CallSym(p.Method("raftpb", "Message", "GetTerm"), sm), 1)
+			linAdd(want, FieldOf(sr, p.Field("raft", "raft", "Term")), -1)
+			want.K = 1
+			return linEqual(a.L, want)
+		})
+		inLow, inMain := false, false
+		if lowArm >= 0 && appliedSnap != nil {
+			low := sfi.ReachableFrom([]int{lowArm}, nil)
+			for _, ci := range p.CallsIn(step, appliedSnap) {
+				if low[ci.Block().Index] {
+					inLow = true
+				} else {
+					inMain = true
+				}
+			}
+		}
+		c.Result(inLow && inMain, "C15.N", "snapshot acknowledgement honoured across a term change", fnName(step), p.Pos(step.Pos()), "appliedSnap is reached from the lower-term arm as well as from the main MsgStorageAppendResp arm (otherwise a node whose term rose while its snapshot was being written is wedged)", fmt.Sprintf("lowerTerm=%v main=%v", inLow, inMain))
+	}
+	// --- C15.Z: every apply acknowledgement releases its bytes
+	if rApplied := p.Method("raft", "raft", "appliedTo"); rApplied != nil {
+		lApplied := p.Method("raft", "raftLog", "appliedTo")
+		afi := p.Info(rApplied)
+		ok := false
+		for _, ci := range p.CallsIn(rApplied, lApplied) {
+			sz := afi.Sym(callArgs(ci)[2])
+			if mustPass(afi, ci) && sz.Key() == afi.Sym(rApplied.Params[2]).Key() {
+				ok = true
+			}
+		}
+		c.Result(ok, "C15.Z", "apply acknowledgement always releases its size", fnName(rApplied), p.Pos(rApplied.Pos()), "raftLog.appliedTo(.., size) is called on every path (an ack overtaken by a snapshot must still release applyingEntsSize, or apply pagination stalls)", "")
 	}
 	// --- C15.U: the storage acknowledgement is requested as long as unstable entries exist
 	needResp := p.Func("raft", "needStorageAppendRespMsg")
